@@ -168,7 +168,12 @@ void parity_size(struct snapraid_parity_handle* handle, data_off_t* out_size)
 	for (s = 0; s < handle->split_mac; ++s) {
 		struct snapraid_split_handle* split = &handle->split_map[s];
 
-		size += split->size;
+		/* a file smaller than its recorded size holds less parity than recorded, */
+		/* like when the parity disk was replaced or the file truncated */
+		if (split->st.st_size < split->size)
+			size += split->st.st_size;
+		else
+			size += split->size;
 	}
 
 	*out_size = size;
